@@ -1,6 +1,8 @@
 package main
 
 import (
+	"strings"
+	"math/big"
 	"fmt"
 	"go/token"
 	"go/types"
@@ -214,6 +216,8 @@ func sameArg(a, b ssa.Value) bool {
 }
 
 func runC04(p *Prog, r *Report) {
+	// R5: the built-in source extractors name the source exactly (a source is its own token): shared with C19.R1/R2
+	r.Borrow(p, runC19, map[string]string{"C19.R1": "C04.R5", "C19.R2": "C04.R5"}, nil)
 	c := resolveConnLim(p, r)
 	if c == nil {
 		return
@@ -277,6 +281,46 @@ func runC04(p *Prog, r *Report) {
 					"write is inside the acquire/release routine", "the per-source counter is written outside the acquire and release routines")
 			}
 		}
+	}
+	// an entry is dropped only when its count has reached zero: delete(connections, k) is reachable only on an
+	// edge implying count == 0 / count <= 0, count being connections[k] (after the decrement) or
+	// connections[k] - amount (before it); dropping an entry that still counts requests in flight resets the
+	// source's count to 0 and the next requests exceed the limit
+	if c.release != nil {
+		nDel := 0
+		for _, call := range Calls(c.release) {
+			cc := call.Common()
+			bi, ok := cc.Value.(*ssa.Builtin)
+			if !ok || bi.Name() != "delete" || !mapFieldOf(cc.Args[0], c.typ, c.mapField) {
+				continue
+			}
+			nDel++
+			okDel := false
+			seen := ""
+			for _, ifi := range ifs(c.release) {
+				cmp, okc := CanonCmp(BuildExpr(p, ifi.Cond, nil))
+				if !okc {
+					continue
+				}
+				for k := 0; k < 2; k++ {
+					cm := cmp
+					if k == 1 {
+						cm = cmp.Negate()
+					}
+					if !OnlyViaEdge(c.release, call, Edge{ifi.Block(), k}) {
+						continue
+					}
+					seen = cm.String()
+					if zeroCountCmp(cm) {
+						okDel = true
+					}
+				}
+			}
+			r.Paths++
+			r.Check(okDel, "C04.R2", "connlimit release routine: the per-source entry is dropped only at count zero", p.InstrPos(call),
+				"delete is reachable only on a count == 0 (<= 0) edge", "the entry is deleted on an edge that does not imply the count reached zero ("+seen+"): requests still in flight are forgotten and the source can exceed the maximum")
+		}
+		_ = nDel
 	}
 	// key and amount of the increment and of the decrement, resolved to values of ServeHTTP
 	// (through the routine's parameters and the call / defer arguments, or through the captured
@@ -536,6 +580,48 @@ func checkC04Admission(p *Prog, r *Report, c *connLim) {
 		}
 	}
 	r.Check(okPre, "C04.R4", an+": count is compared before it is modified", p.InstrPos(cmpIf), "no map update precedes the comparison", "the counter is modified before the admission comparison")
+}
+
+// zeroCountCmp: the comparison reads count == 0, count <= 0 or count < 1 where count is one map lookup,
+// optionally minus one other (non-constant) term: D is +-(lookup) or +-(lookup - amount), no constant > 0.
+func zeroCountCmp(c LinCmp) bool {
+	d := c.D.norm()
+	if _, ok := d.Q.isConst(); !ok {
+		return false
+	}
+	nLookup, nOther := 0, 0
+	var lookSign, otherSign int
+	for a, q := range d.P {
+		if a == "" {
+			continue
+		}
+		if !q.IsInt() || (q.Num().Int64() != 1 && q.Num().Int64() != -1) {
+			return false
+		}
+		if strings.HasPrefix(a, "idx(") || strings.Contains(a, "lookup(") {
+			nLookup++
+			lookSign = q.Sign()
+		} else {
+			nOther++
+			otherSign = q.Sign()
+		}
+	}
+	if nLookup != 1 || nOther > 1 || (nOther == 1 && otherSign == lookSign) {
+		return false
+	}
+	k := new(big.Rat)
+	if c0, ok := d.P[""]; ok {
+		k = c0
+	}
+	switch c.Op {
+	case "==":
+		return k.Sign() == 0
+	case ">=": // D >= 0 with D = -(count) [+ k]: count <= k, need k <= 0
+		return lookSign < 0 && k.Sign() <= 0
+	case ">": // -(count) + k > 0: count < k, need k <= 1
+		return lookSign < 0 && k.Cmp(big.NewRat(1, 1)) <= 0
+	}
+	return false
 }
 
 func mutantsC04() []Mutant {
